@@ -262,7 +262,8 @@ def gen_convergence(rng, i, kind="conv"):
         ta, tb = rng.randrange(1 << 62), rng.randrange(1 << 62)
         ops[3:3] = ["tie,0,%d" % ta, "tie,1,%d" % (tb if tb != ta else ta + 1)]
     drop = rng.choice([0, 0, 0.1, 0.25, 0.4])
-    ops.append("net,%s,%s,%d,%d,%d" % (drop, rng.choice([0, 0, 0.1, 0.3]), rng.choice([1, 5, 20]), rng.choice([1, 30, 120, 400]), rng.choice([2, 3])))
+    ops.append("net,%s,%s,%d,%d,%d" % (drop, rng.choice([0, 0, 0.1, 0.3]), rng.choice([1, 5, 20]), rng.choice([1, 30, 120, 200]), rng.choice([2, 3])))   # one-way delay <= 200 ms: a round trip always beats the shortest
+    # per-attempt timeout (500 ms), so an attempt the network delivers is not lost to the timer instead
     ops += ["gather,0,1", "gather,1,1", "run,%d" % rng.choice([0, 10, 100])]
     ops += signalling(rng, ncomp, trickle=trickle and rng.random() < 0.7)
     ops += ["run,%d" % rng.choice([4000, 8000, 15000]), "digest", "run,6000", "digest"]
@@ -329,3 +330,63 @@ def run_sim(chk, cases, oracle, what, timeout=1500, leaks=False):
     vlib.correspond(chk, [(l, metas[l.split()[0]].get("kind", "sim")) for l in lines], sim, sim, oracle=orc, what=what,
                     nontrivial=lambda l, o_: o_ is not None and "READY" in o_, timeout=timeout,
                     env={"ASAN_OPTIONS": "detect_leaks=%d:abort_on_error=0" % (1 if leaks else 0), "G_SLICE": "always-malloc"})
+
+
+# ------------------------------------------------------------------ C03: attacker scenarios and oracles
+ATK_NET = "10.66."
+
+
+def gen_attack(rng, i):
+    """C03: (a) a C01-style session with the built-in attacker (knows usernames, sees transaction ids, spoofs sources, ignorant of
+    the passwords) firing from the start; (b) an ISOLATED victim: agent 0 has the peer's credentials and candidates but every
+    packet from the peer is black-holed, so anything agent 0 shows beyond CONNECTING -> FAILED was caused by the attacker."""
+    if rng.random() < 0.6:
+        line, meta = gen_convergence(rng, i, kind="atk")
+        ops = line.split(" ")
+        k = next(j for j, o in enumerate(ops) if o.startswith("gather,"))
+        ops.insert(k, "attacker,%d,%d" % (rng.choice([3, 7, 20, 50]), rng.choice([1023, 1023, 0x3fc, 0x0e0, 0x21c])))
+        meta = dict(meta, kind="atk-conv")
+        return " ".join(ops), meta
+    na, nb = rng.choice([1, 2]), rng.choice([1, 2])
+    ips = (tuple("10.0.0.%d" % (k + 1) for k in range(na)), tuple("10.0.1.%d" % (k + 1) for k in range(nb)))
+    ctl = rng.choice([(1, 0), (0, 1), (1, 1), (0, 0)])
+    opts = tuple(rng.choice([0, OPT_REGULAR]) | (OPT_CONSENT if rng.random() < 0.3 else 0) for _ in (0, 1))
+    ops = two_agents(rng, 0, opts, ctl, ips, 1)
+    for b in ips[1]:
+        for a in ips[0]:
+            ops.append("hole,%s,%s,on" % (b, a))
+    ops.append("attacker,%d,%d" % (rng.choice([2, 5, 11]), rng.choice([1023, 0x3fc, 0x2ec, 0x0e0])))
+    ops += ["gather,0,1", "gather,1,1", "run,%d" % rng.choice([0, 10])] + signalling(rng, 1)
+    ops += ["run,%d" % rng.choice([3000, 9000]), "digest", "send,0,1,1,100,7", "run,4000"] + final_queries(1)
+    return "iso%d %s" % (i, " ".join(ops)), {"kind": "atk-iso", "ncomp": 1, "ctl0": ctl[0], "ips0": ips[0]}
+
+
+def oracle_no_attacker_influence(evs, meta):
+    for e in evs:
+        txt = " ".join(e.f)
+        if e.kind == "sig" and ATK_NET in txt:
+            return "an attacker address shows up in a signal: %s" % txt
+        if e.kind == "dig" and ATK_NET in txt:
+            return "an attacker address sits in a check list / selected pair: %s" % txt[:300]
+        if e.kind == "api" and "get_selected_pair" in txt and ATK_NET in txt:
+            return "selected pair uses an attacker address: %s" % txt
+    r = oracle_data(evs)
+    if r:
+        return r
+    if meta.get("kind") == "atk-iso":
+        allowed = {"GATHERING", "CONNECTING", "FAILED"}
+        for e in evs:
+            if e.kind == "sig" and e.f[0] == "0":
+                if e.f[1] == "state" and e.f[4] not in allowed:
+                    return "isolated agent (hears only the attacker) went to %s" % e.f[4]
+                if e.f[1] in ("selected-pair", "new-remote-candidate", "initial-binding-request"):
+                    return "isolated agent (hears only the attacker) emitted %s" % " ".join(e.f[1:])
+            if e.kind == "rx" and e.f[0] == "0":
+                return "isolated agent delivered data to the application: %s" % " ".join(e.f)
+            if e.kind == "pkt" and "stun" in e.f and "c0" in e.f and e.f[0].rsplit(":", 1)[0] in meta["ips0"]:
+                want = "ctl=%d" % meta["ctl0"]
+                if want not in e.f:
+                    return "isolated agent changed role: started as %s, sends %s" % (want, [x for x in e.f if x.startswith("ctl=")])
+            if e.kind == "api" and e.f[0] == "0" and e.f[1] == "send" and e.f[-1] != "=-1":
+                return "isolated agent accepted application data for sending (%s) although no pair was ever validated" % " ".join(e.f)
+    return None
